@@ -236,8 +236,8 @@ def plan(tier, seed):
             for start, prefix in PREFIX.items():
                 for d in range(1, depth + 1):
                     for tail in itertools.product(scen.EVENTS + scen.EVENTS_OPT if d <= 2 else scen.EVENTS, repeat=d):
-                        if d < depth and False:
-                            continue
+                        if q and d == 2 and (tail[1] in scen.EVENTS_OPT or (tail[0] in scen.EVENTS_OPT and tail[1] not in ("DWR", "APP-req", "local-stop", "peer-disconnect", "DPR"))):
+                            continue        # quick: the variants with optional AVPs as first event, five follow-ups each
                         cases.append({"role": role, "apps": apps, "seq": prefix + list(tail)})
     # de-duplicate (shorter sequences are prefixes of longer ones: keep only maximal depth and depth-1 singles)
     if q:
